@@ -22,6 +22,24 @@ NEVER = 7                       # never occurs in any generated array
 POOLS = ([0, 1, 2, 3, 5], [0, 1, 2, 3, 5], [-1, 0, 1, 2, -3])
 U32 = numpy.uint32
 
+# collapsed() with a REPEATED value in the precedence list deviates from "first listed value present, else the last listed"
+# on the repaired tree (notes/iindex-harness.md, candidate finding).  Such lists are generated only once the lead has
+# registered the finding under this signature in known_findings.json (status known -> KNOWN-FINDING, fixed -> must pass).
+SIG_REPEATED_PREC = "collapsed:repeated-precedence-value"
+
+
+_REPEATED = []
+
+
+def repeated_prec_enabled():
+    if not _REPEATED:
+        try:
+            _REPEATED.append(any(k.get("signature") == SIG_REPEATED_PREC for k in core.load_known()))
+        except Exception:  # noqa
+            _REPEATED.append(False)
+    return _REPEATED[0]
+
+
 ERR = {"TypeError": "ETypeError", "ValueError": "EValueError", "KeyError": "EKeyError",
        "OverflowError": "EOverflow", "IndexError": "EIndexError"}
 
@@ -79,6 +97,13 @@ def shares(xs, ys):
 def py_wf(idx):
     """The C07 conditions stated directly on the real object (validator + what it does not check).
     Returns None or a short reason."""
+    try:
+        return _py_wf(idx)
+    except Exception as e:  # noqa  (an object so broken that it cannot even be inspected)
+        return "cannot be inspected: %s: %s" % (type(e).__name__, str(e)[:120])
+
+
+def _py_wf(idx):
     try:
         idx.validate(True)
     except Exception as e:  # noqa
@@ -350,6 +375,8 @@ def gen_op(rng, impl, idx, a, vals):
         return {"op": "reindexed", "mapping": m, "copy": rng.random() < 0.7, "shift": rng.random() < 0.8}
     if name == "collapsed":
         prec = rng.sample(pool + [-5], rng.randint(1, 4))
+        if repeated_prec_enabled() and rng.random() < 0.15:
+            prec.insert(rng.randrange(len(prec) + 1), rng.choice(prec))
         m = None
         if rng.random() < 0.2:
             m = [[k, rng.choice(vals + [9])] for k in rng.sample(pool, rng.randint(1, 3))]
@@ -675,7 +702,8 @@ def run_step(impl, idx, a, op):
     got = densify(st.after) if sane_for_densify(st.after) else None
     if st.expect is not None:
         if got is None or got.shape != st.expect.shape or not (got == st.expect).all():
-            st.problems.append(("C06", "%s:dense-mismatch" % name, "dense content %r (shape %r), NumPy gives %r (shape %r)" % (
+            sig = SIG_REPEATED_PREC if (name == "collapsed" and len(set(op["prec"])) < len(op["prec"])) else "%s:dense-mismatch" % name
+            st.problems.append(("C06", sig, "dense content %r (shape %r), NumPy gives %r (shape %r)" % (
                 None if got is None else got.tolist(), tuple(st.after["shape"]), st.expect.tolist(), st.expect.shape)))
         elif len(result.shape) <= 2:
             try:
@@ -757,7 +785,11 @@ def eq_probe(impl, rng, result, expect, vals, pool=None):
     except Exception as e:  # noqa
         problems.append(("C15", "eq:twin-construction", "from_array(%r, common=%r) raised %s" % (expect.tolist(), common, e)))
         return cases, problems
-    cp = result.copy()
+    try:
+        cp = result.copy()
+    except Exception as e:  # noqa
+        problems.append(("C15", "eq:copy-raised", "copy() of %r raised %s: %s" % (spec_of(result), type(e).__name__, str(e)[:120])))
+        return cases, problems
     probe(result, twin, True, "twin-unequal")
     probe(result, cp, True, "copy-unequal")
     probe(result, result, True, "not-reflexive", both=False)
@@ -828,9 +860,11 @@ def run_history(impl, rng, max_steps, dims3=False, with_eq=True, own=None, pool=
         try:
             op = gen_op(rng, impl, idx, a, vals)
             st = run_step(impl, idx, a, op)
-        except Exception:  # noqa  (only possible from a state that is already ill-formed)
+        except Exception as e:  # noqa  (the harness's own use of the library raised: only a broken implementation gets here)
             if h.tainted_from is None:
-                raise
+                import traceback
+                h.problems.append((len(h.steps) - 1, own or "C06", "history:unexpected-exception",
+                                   "%s: %s while preparing/abstracting step %d: %s" % (type(e).__name__, str(e)[:160], len(h.steps), traceback.format_exc()[-600:])))
             break
         st.tainted = h.tainted_from is not None
         h.steps.append(st)
@@ -851,7 +885,10 @@ def run_history(impl, rng, max_steps, dims3=False, with_eq=True, own=None, pool=
         if with_eq and not st.tainted:
             # the twin comparison is made even when another oracle already objected to this step
             # (an ill-formed result is exactly what makes an index unequal to its twin)
-            cs, ps = eq_probe(impl, rng, idx, a, vals, pool)
+            try:
+                cs, ps = eq_probe(impl, rng, idx, a, vals, pool)
+            except Exception as e:  # noqa  (only a broken implementation gets here)
+                cs, ps = [], [("C15", "eq:probe-raised", "comparing %r with its twins raised %s: %s" % (spec_of(idx), type(e).__name__, str(e)[:160]))]
             if not st.problems:
                 h.eqcases.extend(cs)
             for p in ps:
@@ -900,6 +937,7 @@ def replay_history(impl, rng, hj, own=None):
     idx = build(impl, hj["init"]["spec"])
     a = numpy.array(hj["init"]["array"], dtype=int).reshape(hj["init"]["shape"])
     out = []
+    py_wf(idx)                 # as run_history does (matters only for defects that keep hidden state on the object)
     for i, op in enumerate(hj["ops"]):
         try:
             st = run_step(impl, idx, a, op)
@@ -1056,11 +1094,11 @@ def lit_fcase(a, common, spec):
     return "(mkfcase %s %s %s %s %s)" % (rows, core.zlit(a.shape[0]), zl(a.shape[1:]), core.optlit(common, core.zlit), lit_idx(spec))
 
 
-def from_array_case(impl, rng, a, vals):
+def from_array_case(impl, rng, a, vals, lib_chosen_only=False):
     """from_array on dense array a (1-D/2-D) with a random common argument (None = library-chosen, a present value,
     an absent value).  Returns (literal | None, problem | None, description)."""
     present = sorted(set(int(x) for x in a.flat))
-    cm = rng.choice([None, None] + (present[:1] if present else []) + [rng.choice(vals + [NEVER])])
+    cm = None if lib_chosen_only else rng.choice([None, None] + (present[:1] if present else []) + [rng.choice(vals + [NEVER])])
     if cm is None and a.size == 0:
         cm = rng.choice(vals)          # documented: "No values or common value provided" is refused
     try:
@@ -1224,6 +1262,23 @@ def run_check(ctx, prop):
                     if why:
                         extra_problems.append(("from_array:illformed", why, {"array": exp.tolist(), "common": cm, "how": "iindex.from_array(array, common=common).validate(True)"}))
         if prop == "C15":
+            # from_array without a common (library-chosen) on every dense array the history reached
+            for i, st in enumerate(h.steps):
+                if st.raised or st.problems or st.after is None or getattr(st, "tainted", False) or len(fcases) >= n_load_max:
+                    continue
+                exp = st.expect if st.expect is not None else densify(st.after)
+                if exp.ndim <= 2 and exp.size:
+                    lit, why, cm = from_array_case(impl, rng, exp, h.init["vals"], lib_chosen_only=True)
+                    if lit is not None:
+                        fcases.append(lit)
+                        fowners.append((hn, i))
+                    try:
+                        fidx = impl.iindex.from_array(exp)
+                        if not most_frequent(fidx.common, exp):
+                            extra_problems.append(("from_array:common-not-most-frequent", "from_array(%r) chose common %r" % (exp.tolist(), fidx.common),
+                                                   {"array": exp.tolist(), "how": "iindex.from_array(array).common"}))
+                    except Exception as e:  # noqa
+                        extra_problems.append(("from_array:raised", "from_array(%r) raised %s" % (exp.tolist(), e), {"array": exp.tolist()}))
             for c in h.eqcases:
                 lit = lit_ecase(*c)
                 if lit not in eqseen:           # identical comparisons (tiny indexes) are evaluated once
@@ -1257,6 +1312,10 @@ def run_check(ctx, prop):
         ctx.coverage["eq_comparisons_made_on_the_implementation"] = eq_total
         ctx.coverage["eq_model_disagreements"] = len(res2.failing)
         errors += res2.errors
+        res4 = core.run_cases("c15from", PRELUDE, fcases, "fcase", "chk07from", "explain_from", shard_size=600)
+        ctx.coverage["from_array_library_chosen_cases"] = len(fcases)
+        ctx.coverage["from_array_disagreements"] = len(res4.failing)
+        errors += res4.errors
     if prop == "C07":
         res3 = core.run_cases("c07load", PRELUDE, lcases, "lcase", "chk07load", "explain_load", shard_size=600)
         res4 = core.run_cases("c07from", PRELUDE, fcases, "fcase", "chk07from", "explain_from", shard_size=600)
@@ -1266,6 +1325,19 @@ def run_check(ctx, prop):
         ctx.coverage["indx_load_disagreements"] = len(res3.failing)
         ctx.coverage["from_array_disagreements"] = len(res4.failing)
         errors += res3.errors + res4.errors
+    if prop in ("C06", "C07"):
+        # evidence only: how many generated steps lie inside the hypotheses (HistorySpec.args_ok) of the history theorems
+        ok_args, _ = core.coq_make(["theories/IIndex/ArgsCheck.vo"])
+        if ok_args:
+            resa = core.run_cases(prop.lower() + "args", PRELUDE + "\nFrom Catii Require Import IIndex.ArgsCheck.", cases, "scase", "chk_args", None, shard_size=400)
+            outside = collections.Counter(hists[owners[k][0]].steps[owners[k][1]].op["op"] for k in resa.failing)
+            if not resa.errors:
+                ctx.coverage["steps_inside_theorem_hypotheses(args_ok_b)"] = len(cases) - len(resa.failing)
+                ctx.coverage["steps_outside_theorem_hypotheses_by_operation"] = dict(outside)
+            else:
+                ctx.notes.append("args_ok_b statistic not available: shard failed to evaluate")
+        else:
+            ctx.notes.append("args_ok_b statistic not available: IIndex/ArgsCheck.v (or a proof file it imports) does not compile")
     ctx.coverage["coq_case_shards_failed"] = len(errors)
 
     # ---- verdicts ----
@@ -1294,7 +1366,7 @@ def run_check(ctx, prop):
                 rep["one_step"] = one_step_repro(h.steps[i])
                 rep["shrink_error"] = repr(e)
         ctx.report(sig, text[:300], rep)
-    if prop == "C07":
+    if prop in ("C07", "C15"):
         done = set()
         for sig, why, rep in extra_problems:
             if sig not in done:
@@ -1307,9 +1379,9 @@ def run_check(ctx, prop):
     if res2 is not None:
         bad_h = {hn for (hn, i, p, sig, text) in py_problems}
         eq_unexplained = [k for k in res2.failing if eqowners[k] not in bad_h]
-    if res3 is not None and not extra_problems:
-        load_unexplained = list(res3.failing)
-        from_unexplained = list(res4.failing)
+    if not extra_problems:
+        load_unexplained = list(res3.failing) if res3 is not None else []
+        from_unexplained = list(res4.failing) if res4 is not None else []
     if not pr["ok"] or not ok_chk or errors or unexplained or eq_unexplained or load_unexplained or from_unexplained:
         what = []
         if not pr["ok"]:
@@ -1323,7 +1395,7 @@ def run_check(ctx, prop):
         if load_unexplained:
             what.append("suite c07load: %d INDX round trips whose result wf_b / the comparison with the saved index rejects" % len(load_unexplained))
         if from_unexplained:
-            what.append("suite c07from: %d from_array results that wf_b / the dense comparison rejects" % len(from_unexplained))
+            what.append("suite %sfrom: %d from_array results that wf_b / the dense comparison / most-frequent rejects" % (prop.lower(), len(from_unexplained)))
         if errors:
             what.append("correspondence shards failed to evaluate: %s" % (errors[0][1][-400:],))
         ctx.report(prop.lower() + ":not-shown", "; ".join(what), {
